@@ -30,6 +30,10 @@ for S in $seeds; do
   [ "$S" = "C07-3" ] && props="C07 C02"
   [ "$S" = "C17-6" ] && props="C17 C18"
   [ "$S" = "C16-5" ] && props="C16"
+  [ "$S" = "C11-6" ] && props="C11 C04"
+  [ "$S" = "C03-6" ] && props="C03 C14"
+  [ "$S" = "C03-5" ] && props="C03 C09"
+  [ "$S" = "C01-6" ] && props="C01 C04"
   [ "$S" = "C19-6" ] && props="C19 C20"
   [ "$S" = "C07-6" ] && props="C07 C02 C20"
   [ "$S" = "C08-6" ] && props="C08 C19"
